@@ -12,8 +12,10 @@ probe in flight; budget: one short of capacity; tokens about to age out) + 2-3
 threads x 1-3 public operations + a fixed sequential probe suffix.
 
 R1 linearizability: some total order of the operations, consistent with
-   real-time order, makes the reference model reproduce every per-thread
-   result and the probe-suffix results
+   real-time order, replayed single-threaded on a fresh instance of the SAME
+   component, reproduces every per-thread result and the probe-suffix results
+   (the sequential specification is the component's own sequential behaviour,
+   so purely sequential bugs -- C06/C07/C10's business -- raise no alarm here)
    corollaries named in the signature: two probes admitted, circuit_opened
    returned twice, over-grant
 R5 no interleaving deadlocks (nobody runnable while somebody is unfinished) or
@@ -29,7 +31,7 @@ from redress import Budget, CircuitBreaker, ErrorClass
 from .. import seams
 from ..clock import SimClock
 from ..facts import V
-from ..lin import linearizable
+from ..lin import linearizable_by_replay
 from ..models import RefBreaker, RefBudget
 from ..runner import digest
 from ..threads import FAKE, Deadlock, Scheduler, StepCap
@@ -44,7 +46,7 @@ RULE = ("seeded small concurrent programs (2-3 threads x 1-3 ops over the public
         "component states observed at yield points")
 COMPONENTS = {"real": ["redress.circuit.CircuitBreaker", "redress.budget.Budget", "real OS threads (parked / released one at a time)"],
               "stub": ["threading.Lock inside the component (cooperative SimLock)", "thread scheduler (baton, seeded)", "clock (frozen SimClock)",
-                       "RefBreaker / RefBudget + brute-force linearizability checker are the oracle"]}
+                       "oracle: brute-force linearizability against the component's own single-threaded replay"]}
 ASSUMPTIONS = ["pre-emption granularity: source lines of circuit.py/budget.py (quick), bytecodes (part of thorough)",
                "the clock does not move while the threads race (each method samples the clock before taking the lock; moving time "
                "between sample and lock is a different question from atomicity)", "sampling of schedules, not exhaustive enumeration"]
@@ -201,36 +203,40 @@ def execute(scn):
     seams.install_threading(FAKE)
     FAKE.locks = []
     FAKE.sched = None
-    clock = SimClock(0)
-    seams.bind(clock, None)
     comp = scn["component"]
     cfg = scn["cfg"]
+    viol = []
+
+    def build():
+        """fresh real component + its clock, with the sequential initial history replayed"""
+        ck = SimClock(0)
+        seams.bind(ck, None)
+        if comp == "breaker":
+            inst = CircuitBreaker(failure_threshold=cfg["F"], window_s=cfg["window_us"] / 1e6, recovery_timeout_s=cfg["recovery_us"] / 1e6,
+                                  class_thresholds={ErrorClass[k]: v for k, v in (cfg.get("class_thresholds") or {}).items()} or None,
+                                  clock=ck.monotonic)
+        else:
+            inst = Budget(max_retries=cfg["max"], window_s=cfg["window_us"] / 1e6)
+        for op in scn["init"]:
+            if op[0] == "adv":
+                ck.advance(op[1])
+            else:
+                ar(inst, op[0], op[1] if len(op) > 1 else None)
+        return inst, ck
+
     if comp == "breaker":
-        real = CircuitBreaker(failure_threshold=cfg["F"], window_s=cfg["window_us"] / 1e6, recovery_timeout_s=cfg["recovery_us"] / 1e6,
-                              class_thresholds={ErrorClass[k]: v for k, v in (cfg.get("class_thresholds") or {}).items()} or None,
-                              clock=clock.monotonic)
-        model = RefBreaker(cfg["F"], cfg["window_us"], cfg["recovery_us"], cfg.get("trip_on"), cfg.get("class_thresholds"))
-        ar, am = apply_breaker_real, apply_breaker_model
+        ar = apply_breaker_real
+    else:
+        ar = apply_budget_real
+    try:
+        real, clock = build()
+    except Deadlock:
+        return {"violations": [V("R5", "deadlock under a legal interleaving", {"component": comp, "detail": "an operation re-acquires its own lock (single thread)"})],
+                "shape": None, "nontrivial": False, "runs": 1, "sim_us": 0, "faults": {}, "probes": {}}
+    if comp == "breaker":
         probe = lambda: (real._state.value, real._probe_in_flight, len(real._failures), real._lock.owner is not None)  # noqa: E731
     else:
-        real = Budget(max_retries=cfg["max"], window_s=cfg["window_us"] / 1e6)
-        model = RefBudget(cfg["max"], cfg["window_us"])
-        ar, am = apply_budget_real, apply_budget_model
         probe = lambda: (len(real._events), real._lock.owner is not None)  # noqa: E731
-    viol = []
-    # sequential initial state (real and model in lock-step; a mismatch here is C06/C07/C10's business)
-    for op in scn["init"]:
-        if op[0] == "adv":
-            clock.advance(op[1])
-            continue
-        a = op[1] if len(op) > 1 else None
-        try:
-            got = ar(real, op[0], a)
-        except Deadlock:
-            return {"violations": [V("R5", "deadlock under a legal interleaving", {"component": comp, "detail": f"{op[0]} re-acquires its own lock (single thread)"})],
-                    "shape": None, "nontrivial": False, "runs": 1, "sim_us": 0, "faults": {}, "probes": {}}
-        if got != am(model, op[0], a, clock.mono_us):
-            return {"violations": [], "shape": None, "nontrivial": False, "runs": 1, "sim_us": 0, "faults": {}, "probes": {"init_mismatch": 1}}
     now = clock.mono_us
     gseq = [0]
     history = []
@@ -277,9 +283,14 @@ def execute(scn):
                 suffix_res.append(ar(real, op[0], a))
             except Deadlock:
                 suffix_res.append("deadlock")
-        ok, w = linearizable(model, history, lambda m, n, a: am(m, n, a, now), [(o[0], o[1] if len(o) > 1 else None) for o in scn["suffix"]], suffix_res)
+        def make_instance():
+            inst, _ck = build()          # rebinding the clock seam is fine: the racing phase is over
+            return inst
+        ok, w = linearizable_by_replay(make_instance, history, lambda inst, n, a: ar(inst, n, a),
+                                       [(o[0], o[1] if len(o) > 1 else None) for o in scn["suffix"]], suffix_res)
+        seams.bind(clock, None)
         if not ok:
-            sig = "no sequential order explains the results"
+            sig = "no sequential order of the same operations explains the results"
             if comp == "breaker":
                 probes_adm = sum(1 for h in history if h["name"] == "allow" and h["result"][0] and h["result"][2] == "half_open")
                 opened = sum(1 for h in history if h["result"] == "circuit_opened")
@@ -289,7 +300,7 @@ def execute(scn):
                     sig += " (circuit_opened returned more than once)"
             else:
                 g = sum(h["arg"] for h in history if h["name"] == "consume" and h["result"] is True)
-                if g + (cfg["max"] - model.remaining(now)) > cfg["max"]:
+                if g > cfg["max"]:
                     sig += " (over-grant)"
             viol.append(V("R1", sig, {"component": comp, "init": scn["init_kind"], "cfg": cfg,
                                       "history": sorted(history, key=lambda h: h["inv"]), "suffix": list(zip(map(tuple, scn["suffix"]), suffix_res))}))
